@@ -854,13 +854,14 @@ def _gen_history(ctx, n_ops):
     for _ in range(n_ops):
         o = ctx.rng.choice(_HIST_OPS)
         if o in ('rt', 'irt'):
-            ops.append([o, _tvec(ctx, 5.0)])
+            ops.append([o, _tvec(ctx, 5.0), ctx.rng.choice(_MUTS)])
         elif o in ('rtp', 'irtp'):
-            ops.append([o, _tvec(ctx, 2.0), _tvec(ctx)])
+            ops.append([o, _tvec(ctx, 2.0), _tvec(ctx), ctx.rng.choice(_MUTS)])
         elif o == 'scale':
             ops.append([o, ctx.rng.choice((1.0, 0.5, 2.0, ctx.rng.uniform(0.1, 5.0)))])
         elif o == 'read':
-            ops.append([o, ctx.rng.choice(('rot_matrix', 'rot_vec', 'rot_quat', 'translation', 'matrix_vec'))])
+            ops.append([o, ctx.rng.choice(('rot_matrix', 'rot_vec', 'rot_quat', 'translation', 'matrix_vec')),
+                        ctx.rng.choice(_MUTS)])
         else:
             ops.append([o, ctx.rng.randrange(4)])
     return {'fn': 'pose_history', 'r': list(r), 't': _tvec(ctx), 'ops': ops, 'probe': _tvec(ctx, 5.0),
@@ -876,7 +877,10 @@ def _run_history(case):
     from cflib.localization.lighthouse_types import Pose
     from scipy.spatial.transform import Rotation
     R0 = Rotation.from_rotvec(case['r']).as_matrix()
-    objs = [[Pose(R0.copy(), np.array(case['t'], dtype=float)), R0.copy(), np.array(case['t'], dtype=float)]]
+    Rin, tin = R0.copy(), np.array(case['t'], dtype=float)
+    objs = [[Pose(Rin, tin), R0.copy(), np.array(case['t'], dtype=float)]]
+    Rin *= 3.0                       # the constructor copies: later changes of the caller's arrays do not reach the pose
+    tin -= 1.0
     cur = 0
     x = np.array(case['probe'], dtype=float)
     Qr = Rotation.from_rotvec(case['q'][0]).as_matrix()
@@ -919,13 +923,23 @@ def _run_history(case):
     for step, op in enumerate(case['ops']):
         P, R, t = objs[cur]
         o = op[0]
-        if o == 'rt':
-            P.rotate_translate(np.array(op[1]))
-        elif o == 'irt':
-            P.inv_rotate_translate(np.array(op[1]))
+        # results COMPUTED by the library may be modified in place by the client afterwards (op[-1]); the arguments
+        # handed in are modified after the call as well.  rot_matrix / translation / matrix_vec hand out the stored
+        # arrays in the unchanged code (observation recorded in design.d/C15.md), so those are read but not modified.
+        if o in ('rt', 'irt'):
+            arg = np.array(op[1])
+            res = (P.rotate_translate if o == 'rt' else P.inv_rotate_translate)(arg)
+            if len(op) > 2 and _mutate(res, op[2]):
+                _mutate(arg, op[2])
         elif o in ('rtp', 'irtp'):
-            Q = Pose(Rotation.from_rotvec(op[1]).as_matrix(), np.array(op[2]))
-            (P.rotate_translate_pose if o == 'rtp' else P.inv_rotate_translate_pose)(Q)
+            Qm, Qv = Rotation.from_rotvec(op[1]).as_matrix(), np.array(op[2])
+            Q = Pose(Qm, Qv)
+            res = (P.rotate_translate_pose if o == 'rtp' else P.inv_rotate_translate_pose)(Q)
+            if len(op) > 3 and op[3]:
+                _mutate(res.rot_matrix, op[3])
+                _mutate(res.translation, op[3])
+                _mutate(Qm, op[3])           # Pose() copies what it is given
+                _mutate(Qv, op[3])
         elif o == 'scale':
             P.scale(op[1])
             objs[cur][2] = t * op[1]
@@ -934,7 +948,9 @@ def _run_history(case):
                 objs.append([copy.copy(P), R.copy(), objs[cur][2].copy()])
                 cur = len(objs) - 1
         elif o == 'read':
-            getattr(P, op[1])
+            got = getattr(P, op[1])
+            if op[1] in ('rot_vec', 'rot_quat') and len(op) > 2:
+                _mutate(got, op[2])
         elif o == 'switch':
             cur = op[1] % len(objs)
         f = laws(step)
@@ -1029,25 +1045,96 @@ def _run_scaler(case):
     return None
 
 
+_MUTS = (None, None, 'scale', 'sub', 'fill')
+
+
+def _mutate(a, kind):
+    """in-place modification of an array a client got back from the library (ray = v.cart; ray *= dist)"""
+    import numpy as np
+    if kind is None or not isinstance(a, np.ndarray):
+        return False
+    try:
+        if kind == 'scale':
+            a *= 2.5
+        elif kind == 'sub':
+            a -= 0.75
+        else:
+            a.fill(7.0)
+        return True
+    except ValueError:          # read-only array: nothing a client could do to it
+        return False
+
+
+_BSV_PROPS = ('lh_v1_horiz_angle', 'lh_v1_vert_angle', 'lh_v1_angle_pair', 'lh_v2_angle_1', 'lh_v2_angle_2', 'cart',
+              'projection', 'list_projection_pairs', 'list_angles')
+
+
+def _run_bsv_history(case):
+    """reads of LighthouseBsVector properties (and of the LighthouseBsVectors list functions over the same objects) in
+    the given order; after a read the returned array may be modified in place by the client.  Every read must equal
+    the value of a FRESH object with the same angles, and at the end the conversions must still be mutually
+    consistent (unit cart, from_cart(cart) = angles, projection = tan)."""
+    import numpy as np
+    from cflib.localization.lighthouse_bs_vector import LighthouseBsVector as BV, LighthouseBsVectors
+
+    def flat(a):
+        return [float(z) for z in np.asarray(a, dtype=float).ravel()]
+    hv = [(case['h'], case['v'])] + [tuple(x) for x in case.get('others', [])]
+    objs = [BV(h, v) for h, v in hv]
+    lst = LighthouseBsVectors(objs)
+
+    def read(o_list, nm):
+        if nm == 'list_projection_pairs':
+            return LighthouseBsVectors(o_list).projection_pair_list()
+        if nm == 'list_angles':
+            return LighthouseBsVectors(o_list).angle_list()
+        return getattr(o_list[0], nm)
+    for step, op in enumerate(case['ops']):
+        nm, mut = op[0], (op[1] if len(op) > 1 else None)
+        a = lst.projection_pair_list() if nm == 'list_projection_pairs' else (
+            lst.angle_list() if nm == 'list_angles' else getattr(objs[0], nm))
+        f = read([BV(h, v) for h, v in hv], nm)
+        if flat(a) != flat(f):
+            return ('bsv_history', flat(f), flat(a),
+                    'read %d (%s): value differs from a fresh LighthouseBsVector with the same angles (earlier reads: %s)'
+                    % (step, nm, case['ops'][:step]))
+        _mutate(a, mut)
+    b = objs[0]
+    h, v = hv[0]
+    c = b.cart
+    nrm = math.sqrt(sum(float(x) ** 2 for x in c))
+    back = BV.from_cart(c).lh_v1_angle_pair
+    if not _close(nrm, 1.0, 1e-5, 0):
+        return ('cart_not_unit', 1.0, nrm, 'after the history: cart must still be a unit vector')
+    if _cmp_list(list(back), [h, v], *F32) is not None or _cmp_list(list(b.projection), [math.tan(h), math.tan(v)], *F32) is not None:
+        return ('cart_roundtrip', [h, v], list(back), 'after the history: from_cart(cart) / projection must still match the V1 angles')
+    return None
+
+
 def _oracle_bsv_history(ctx, n, fails):
-    """LighthouseBsVector has no mutable state: any order / repetition of property reads gives the values of a fresh
-    object"""
-    from cflib.localization.lighthouse_bs_vector import LighthouseBsVector as BV
-    props = ('lh_v1_horiz_angle', 'lh_v1_vert_angle', 'lh_v1_angle_pair', 'lh_v2_angle_1', 'lh_v2_angle_2', 'cart', 'projection')
     cnt = 0
     for _ in range(n):
-        h, v = ctx.rng.uniform(-H_MAX, H_MAX) * D2R, ctx.rng.uniform(-V_MAX, V_MAX) * D2R
-        order = [ctx.rng.choice(props) for _ in range(10)]
-        case = {'fn': 'bsv_history', 'h': h, 'v': v, 'order': order}
+        def ang():
+            return [ctx.rng.uniform(-H_MAX, H_MAX) * D2R, ctx.rng.uniform(-V_MAX, V_MAX) * D2R]
+        h, v = ang()
+        ops = [[ctx.rng.choice(_BSV_PROPS), ctx.rng.choice(_MUTS)] for _ in range(ctx.rng.randrange(2, 10))]
+        case = {'fn': 'bsv_history', 'h': h, 'v': v, 'others': [ang() for _ in range(3)], 'ops': ops}
+        cnt += len(ops) + 2
         try:
-            b = BV(h, v)
-            for nm in order:
-                a = getattr(b, nm)
-                f = getattr(BV(h, v), nm)
-                if [float(z) for z in (a if hasattr(a, '__len__') else [a])] != [float(z) for z in (f if hasattr(f, '__len__') else [f])]:
-                    _fail(fails, 'bsv_history', case, repr(f), repr(a), 'property %s changed after earlier reads' % nm)
-                    break
-            cnt += 1
+            f = _run_bsv_history(case)
+            if f:
+                ops2, i = list(ops), 0          # shrink: drop reads while the same class still fails
+                while i < len(ops2):
+                    g = None
+                    try:
+                        g = _run_bsv_history(dict(case, ops=ops2[:i] + ops2[i + 1:]))
+                    except Exception:  # noqa
+                        pass
+                    if g and g[0] == f[0]:
+                        ops2, f = ops2[:i] + ops2[i + 1:], g
+                    else:
+                        i += 1
+                _fail(fails, f[0], dict(case, ops=ops2), f[1], f[2], f[3])
         except Exception as e:  # noqa
             _fail(fails, 'bsv_raises', case, 'no exception', repr(e), 'property read raised')
     return cnt
@@ -1144,11 +1231,9 @@ def _replay_case(c):
         if f:
             _fail(fails, f[0], c, f[1], f[2], f[3])
     elif fn == 'bsv_history':
-        import random
-
-        class _B:
-            rng = random.Random(0)
-        _oracle_bsv_history(_B, 50, fails)
+        f = _run_bsv_history(c)
+        if f:
+            _fail(fails, f[0], c, f[1], f[2], f[3])
     elif fn == 'pose_misc':
         import random
 
